@@ -33,6 +33,8 @@ def configs(tier):
             cfgs.append(dict(group='window', k=k, n=n, reads='var_first', _cost=n * n))
             cfgs.append(dict(group='window', k=k, n=n, reads='sparse', _cost=n * n))
     cfgs.append(dict(group='ctor'))
+    for k in (2, 3, 4):
+        cfgs.append(dict(group='rejected_value', k=k, _cost=50))
     return cfgs
 
 
@@ -83,3 +85,43 @@ def _window(env, cfg):
             std = guarded(env, 'std', lambda: t.std)
             env.claim('std_is_root_of_variance' + tag, And(std >= 0, eq(std * std, var_ref)))
     env.canary('window_not_whole_stream', eq(t.mean, total(vs) / n) if n > k else False)
+
+
+def _rejected_value(env, cfg):
+    """a value the buffer cannot store (the real float buffer raises on it) is rejected without disturbing the window:
+    the statistics afterwards are those of the last min(n, k) ACCEPTED values.  Runs on the real float array (the value
+    that is refused must reach NumPy), so the accepted values are concrete here; the position of the refused update and
+    the kind of bad value are enumerated."""
+    import sys
+    import numpy as real_np
+    mod = sys.modules['ixai.utils.tracker.sliding_window']
+    saved = (mod.np, mod.__dict__.get('float'))
+    mod.np = real_np
+    mod.__dict__.pop('float', None)
+    try:
+        k = cfg['k']
+        n = 2 * k + 3
+        pos = env.choose(n, label='position_of_refused_update')
+        # (None is NOT refused by NumPy: it is stored as NaN, which the property excludes as an input)
+        bad = ['x', 10 ** 400, [1.0, 2.0]][env.choose(3, label='kind_of_bad_value')]
+        t = SlidingWindowTracker(k)
+        accepted = []
+        for i in range(n):
+            if i == pos:
+                try:
+                    t.update(bad)
+                    env.claim('bad_value_is_refused', False, detail=repr(bad))
+                except (TypeError, ValueError, OverflowError):
+                    pass
+            v = float((7 * i + 3) % 11) + 0.5 * i
+            t.update(v)
+            accepted.append(v)
+            last = accepted[-k:]
+            mean = sum(last) / len(last)
+            var = sum((a - mean) ** 2 for a in last) / len(last)
+            env.claim('window_of_accepted_values_after_a_refused_one', abs(t.mean - mean) < 1e-9 and abs(t.var - var) < 1e-9,
+                      detail=f"k={k}: refused {bad!r} before accepted value #{pos + 1}; after {i + 1} accepted values mean {t.mean} != {mean}")
+    finally:
+        mod.np = saved[0]
+        if saved[1] is not None:
+            mod.__dict__['float'] = saved[1]
